@@ -213,7 +213,7 @@ Example reject_wrong_failure_text :
 Proof. reflexivity. Qed.
 
 (* ---- thread-local children: the state slot of ActorTerminated is empty by construction (the
-   state is not Send); the oracle admits exactly that for them and nothing else ---- *)
+   state is not Send); the oracle lets in exactly that for them and nothing else ---- *)
 Definition tl_graceful (x : supevt) : list tev :=
   [TEnter 1 PreStart; TExit 1 PreStart ROk; TEnter 1 PostStart; TExit 1 PostStart ROk; TStopReq 1 (Some 10);
    TEnter 1 PostStop; TExit 1 PostStop ROk; TEnter 0 (Sup x)].
